@@ -258,8 +258,10 @@ def biased_family(draw):
     if shape == 'mixed-nokw' and draw(st.booleans()):
         # a mapping-style argument whose key is not a keyword
         call['args'] = call['args'][:-1] + [{'raw': '1 => 2'}]
-    return {'kind': 'family', 'shape': shape,
-            'family': {'layers': layers, 'defs': defs}, 'call': call}
+    fam = {'layers': layers, 'defs': defs}
+    if draw(st.booleans()):
+        fam['decl'] = 'signature'
+    return {'kind': 'family', 'shape': shape, 'family': fam, 'call': call}
 
 
 def _shard(run, n, shard):
